@@ -43,6 +43,8 @@ func genAlignment(r *RNG, maxW, maxN int) (ref string, names, seqs []string) {
 	return
 }
 
+var forceWideGenome bool
+
 func c03Gen(r *RNG, id string, agg bool) *Case {
 	c := NewCase("C03", id)
 	maxW := 300
@@ -78,6 +80,27 @@ func c03Gen(r *RNG, id string, agg bool) *Case {
 		names = []string{"long1", "long2"}
 		seqs = []string{mutateSeq(r, ref, symACGT, 1, 3000, false), mutateSeq(r, ref, "ACGTN-R", 1, 2500, true)}
 		c.Tag("line-longer-than-64KiB")
+	}
+	if forceWideGenome || r.Chance(1, 120) {
+		// a genome of more than 100 000 columns with a handful of SNPs on either side of column 100 000: positions of five
+		// and of six digits in one table (a key that orders positions as text, or is padded to a fixed number of digits,
+		// puts 100000 before 20000)
+		w := 100000 + r.Intn(20000)
+		ref = randSeq(r, w, symACGT, false)
+		names = []string{"wide1", "wide2", "wide3"}
+		seqs = nil
+		for i := 0; i < 3; i++ {
+			b := []byte(ref)
+			for k := 0; k < 4; k++ {
+				p := r.Range(2, 9)*10000 + r.Intn(10000) // 20000 .. 99999: starts with a digit above 1
+				if k%2 == 1 {
+					p = 100000 + r.Intn(w-100000)
+				}
+				b[p-1] = r.Pick(strings.ReplaceAll(symACGT, string(ref[p-1]), ""))
+			}
+			seqs = append(seqs, string(b))
+		}
+		c.Tag("positions-of-five-and-six-digits")
 	}
 	hard := r.Bool()
 	c.SetBool("hard", hard).Set("ref", ref).Set("names", strings.Join(names, ",")).Set("seqs", strings.Join(seqs, ","))
